@@ -7,6 +7,7 @@ from ..gtlib import cq, cvec, cmat, cb3, cbool, cseq, cints, cnats, jarr, Obs, H
 from . import common as C, lin
 
 PROP = "C11"
+WIDEN_MAX = 60          # extra thorough-generator cases when the anchored sources have drifted (harness/drift.py)
 PROPS_FILE = "props/C11.v"
 IMPORTS = "C11_kalman"
 RULE = ("cases = static: Gaussian prior (Dw in 1..3) and N in 1..4 (quick) / 1..6 (thorough) linear-Gaussian observations with "
